@@ -70,7 +70,9 @@ def cdiv(x, y):
 
 def bound_values(t):
     return [0, 1, 2, t.max(), t.max() - 1, t.min(), t.min() + 1, -1, t.max() >> 1, (t.max() >> 1) + 1, 3, 7, 100, 127, 128,
-            255, 256, 32767, 32768, 65535, 65536, 0x7fffffff, 0x80000000, 0xffffffff, 0x100000000, 0x7fffffffffffffff]
+            255, 256, 32767, 32768, 65535, 65536, 0x7fffffff, 0x80000000, 0xffffffff, 0x100000000, 0x7fffffffffffffff,
+            # non-zero values whose low 32 / 16 / 8 bits are all zero: a narrower view of the same register is zero
+            0xffffffff00000000, 0x500000000, 0x7fff0000, 0xffffff00, 0x10000]
 
 
 def lit(t, v):
@@ -389,6 +391,20 @@ class Gen:
 
     def k_assign(self, d):
         ch = self.ch
+        if ch.int(0, 3) == 0:
+            # the value of an assignment used as a truth value, where the assigned value is zero in the type of the left
+            # operand but the right operand is not: what is tested must be the converted value
+            narrow = [x for x in self.types if x.bits <= 32 and x is not BOOL] or self.types
+            t = ch.choice(narrow)
+            wt = ch.choice([x for x in (LONG, ULONG) if x in self.types] or [t])
+            v = conv(ch.choice([0x100000000, 0xffffffff00000000, LONG.min(), 0x500000000] + ([0x7fff0000, 0x10000] if t.bits <= 16 else []) + ([0xffffff00, 0x100] if t.bits <= 8 else [])), wt)
+            a = self.newvar(wt, v) if ch.bool() else E(lit(wt, v), wt, v)
+            i = self.newmod(t, self.value(t))
+            self.mods[i][3] = conv(a.v, t)
+            self.feat.add('truth-of-narrowing-assignment')
+            self.nt = True
+            e = self.mk('(%s = {0})' % self.mods[i][0], t, conv(a.v, t), a)
+            return self.mk('(!{0})', self.IT, int(e.v == 0), e)
         a = self.expr(d - 1)
         t = ch.choice(self.types)
         i = self.newmod(t, self.value(t))
